@@ -744,6 +744,33 @@ fn representation_independence(ctx: &mut Ctx, bits: &[bool], exhaustive: bool) {
             }
         }
     }
+    // the byte export of the C API (what an embedding host reads off a value it popped, directly or out of a vector,
+    // bare or tagged): the value's bytes when it is a whole number of bytes — wherever it lies in its buffer — and NULL
+    // when it is not; the length in bits either way
+    {
+        let p = Box::into_raw(Box::new(xeh::prelude::Xstate::boot().unwrap()));
+        for (k, (name, v, _)) in variants.iter().enumerate() {
+            let got = crate::guarded(|| unsafe {
+                use xeh::c_api::*;
+                use xeh::prelude::Cell;
+                let cell = match k % 3 { 0 => Cell::Bitstr(v.clone()), 1 => Cell::Bitstr(v.clone()).with_tags(xeh::xeh_map!["k" => 1]), _ => { let mut vv = xeh::prelude::Xvec::new(); vv.push_back_mut(Cell::Bitstr(v.clone())); Cell::Vector(vv) } };
+                let _ = xeh_push(p, Box::into_raw(Box::new(cell)));
+                let top = xeh_pop(p);
+                let c = if k % 3 == 2 { let e = xeh_vector_at(top, 0); xeh_release(top); e } else { top };
+                let (ptr, len) = (xeh_bitstr_bytes(c), xeh_bitstr_len(c));
+                // (memory that was given back in between is used again by these)
+                let junk: Vec<Vec<u8>> = (0..48).map(|i| vec![0x55u8 ^ (i as u8); 1 + len / 8]).collect();
+                let out = if ptr.is_null() { format!("len={} bytes=NULL", len) } else { format!("len={} bytes={}", len, hex_bytes(std::slice::from_raw_parts(ptr, len / 8))) };
+                drop(junk);
+                xeh_release(c);
+                out
+            }).unwrap_or_else(|| "panic".into());
+            let exp = if bits.len() % 8 == 0 { format!("len={} bytes={}", bits.len(), hex_bytes(&ref_pad(bits))) } else { format!("len={} bytes=NULL", bits.len()) };
+            ctx.check(got == exp, || format!("{} C API xeh_bitstr_bytes / xeh_bitstr_len ({})", desc(name), ["popped", "popped, tagged", "element of a popped vector"][k % 3]), || exp.clone(), || got.clone());
+        }
+        unsafe { drop(Box::from_raw(p)); }
+        ctx.tag("repr-indep:c-api-export");
+    }
     // binary / transforming operations across variants
     let n = variants.len();
     for _ in 0..n.min(12) {
